@@ -71,7 +71,14 @@ REQUIRES(inlen <= 16384 + 256 && (inlen == 0 || RD_OK(in, inlen)))
 /* the staging buffer is inlen + 256 bytes: content type byte plus at most 255 bytes of padding (callers draw 0..127) */
 REQUIRES(padding_len <= 255)
 REQUIRES(WR_OK(out, inlen + 1 + padding_len + 16) && SEPARATE(out, in) && SEPARATE(out, outlen) && verif_gk < 20000 && G_ge_calls == 0)
-ASSIGNS(OBJ_WHOLE(out), *outlen, G_ge_calls, G_ge_ret, G_ge_key, G_ge_iv, G_ge_ivlen, OBJ_WHOLE(G_ge_aad), G_ge_aadlen, G_ge_inbyte, G_ge_inlen, G_ge_out, G_ge_taglen, G_ge_tag,
+#ifdef CONTRACT_TLS13_ENCRYPT_CONST_FRAME
+/* replaced inside the 63 KB connection object (tls13_send): a constant-size frame, the callers' record + 5 has exactly this room */
+REQUIRES(WR_OK(out, TLS_MAX_RECORD_SIZE - 5))
+ASSIGNS(OBJ_UPTO(out, TLS_MAX_RECORD_SIZE - 5), *outlen,
+#else
+ASSIGNS(OBJ_WHOLE(out), *outlen,
+#endif
+	G_ge_calls, G_ge_ret, G_ge_key, G_ge_iv, G_ge_ivlen, OBJ_WHOLE(G_ge_aad), G_ge_aadlen, G_ge_inbyte, G_ge_inlen, G_ge_out, G_ge_taglen, G_ge_tag,
 	G_x_r, G_x_calls, G_x_len, G_x_rp)
 ENSURES(RET == 1 || RET == -1)
 ENSURES(RET == 1 IMPLIES (G_ge_calls == 1 && G_ge_ret == 1 && G_ge_key == (size_t)key
